@@ -136,8 +136,11 @@ func cmdCheck(args []string) int {
 		b := time.Duration(*budget) * time.Second
 		pool := newPool(cfg, *workers)
 		defer pool.close()
+		jobReach := map[string]bool{}
+		ranAll := true
 		for _, fn := range funcs {
 			if onlyRe != nil && !onlyRe.MatchString(fn) {
+				ranAll = false
 				continue
 			}
 			res, err := pool.explore(fn, b)
@@ -175,10 +178,8 @@ func cmdCheck(args []string) int {
 					problems = append(problems, fmt.Sprintf("%s: %d paths ended outside the model: %s", fn, n, reason))
 				}
 			}
-			for _, tag := range job.ExpectReach {
-				if _, ok := res.Reach[tag]; !ok {
-					problems = append(problems, fmt.Sprintf("%s: reachability witness %q not reached (vacuity guard)", fn, tag))
-				}
+			for tag := range res.Reach {
+				jobReach[tag] = true
 			}
 			nOblig := 0
 			for _, o := range res.Obligations {
@@ -259,6 +260,14 @@ func cmdCheck(args []string) int {
 				samples = append(samples, map[string]interface{}{"harness": fn, "counterexample_for": v.Tag, "inputs": trimModel(v.Model)})
 			}
 		}
+		if ranAll {
+			for _, tag := range job.ExpectReach {
+				if !jobReach[tag] {
+					problems = append(problems, fmt.Sprintf("%s: reachability witness %q not reached by any harness of the job (vacuity guard)", job.Harness, tag))
+				}
+			}
+		}
+		pool.close()
 	}
 
 	// ---- evidence
@@ -545,6 +554,7 @@ func vCatch(f func()) (panicked bool) {
 				panic(r)
 			}
 			vLastPanic = fmt.Sprint(r)
+			fmt.Println("REPLAY-CAUGHT-PANIC", vLastPanic)
 			panicked = true
 		}
 	}()
@@ -647,6 +657,22 @@ func getNativeSession(pkg, harnessDir string) *nativeSession {
 			fmt.Fprintf(&table, "\t%q: %s,\n", string(m[1]), string(m[1]))
 		}
 		repl[filepath.Join(pkgDir, "zz_verif_"+filepath.Base(f))] = f
+	}
+	dirs, derr := harnessStubDirectives(files)
+	if derr != nil {
+		s.err = derr.Error()
+		return s
+	}
+	srepl, fwdFile, serr := buildStubOverlay(pkgDir, pkgName, tmp, dirs)
+	if serr != nil {
+		s.err = serr.Error()
+		return s
+	}
+	for k, v := range srepl {
+		repl[k] = v
+	}
+	if fwdFile != "" {
+		repl[filepath.Join(pkgDir, "zz_verif_forwarders.go")] = fwdFile
 	}
 	rt := filepath.Join(tmp, "rt.go")
 	os.WriteFile(rt, []byte(fmt.Sprintf(nativeRuntime, pkgName)), 0o644)
